@@ -269,7 +269,7 @@ def oracles(trial, calls):
     # than there are ids, the LAST id common to all synchronised sources has been returned - whatever ephemeral sources delivered or withheld
     # (C03_join_complete_multi: every common id is returned; an ephemeral source holds a return only while one of its blocks is partly delivered)
     sync = [i for i, s in enumerate(srcs) if s['eph'] == 0]
-    if trial['profile'] == 'wf' and not trial['balance'] and trial.get('state_mode') == 'none' and sync and not any(o['k'] == 'exc' for outs in calls for o in outs):
+    if trial['profile'] == 'wf' and not trial['balance'] and trial.get('state_mode') == 'none' and sync and not any(o['k'] in ('exc', 'dup') for outs in calls for o in outs):     # a duplicate-topic RuntimeError ends the run (configuration error: two sources hand on the same name)
         common = set.intersection(*[{k for sd, k, T in trial['published'][i]} for i in sync])
         rets = [o['id'] for outs in calls for o in outs if o['k'] == 'ret']
         if common and max(common) not in rets:
